@@ -352,6 +352,34 @@ theorem C02_parameters_general (env : Env) (F D : Nat) (ps : List (PItemG × Tok
       SameButLog w w' ∧ w'.buf = b' :=
   parseParameters_gen env F D ps last cp w b' hall hlast hcp hcpv hy hF
 
+/-- **`S prefix x [ size ] ;` through `parse()`'s loop**, any type specifier, any declarator prefix that does not end in a
+    reference: exactly ONE `on_variable` whose type is the array of what the prefix denotes, the size being EXACTLY the
+    written tokens (absent for `[]`) -/
+theorem C02_array_declaration (env : Env) (hp : RulesProgress env.cfg = true) (F D : Nat) (w : World)
+    (toks : List Tok) (first : Tok) (trest : List Tok) (segs : List PQSeg) (cst vol : Bool)
+    (pre : List (String × String)) (ops : List Tok) (x ob : Tok) (content : List Tok) (cb semi : Tok) (d1 : DType) (b1 b0 bmid bx bo bc b' : Buf)
+    (blk : Block) (rest : List Block) (hstack : w.stack = blk :: rest) (hk : blk.hdr.kind ≠ .cls)
+    (hmu : w.muted = false) (hfa : ¬ env.faultAt = some w.delivered)
+    (hspec : TypeSpecR env (F + 1) D toks segs cst vol) (htoks : toks = first :: trest) (hfirst : specFirst first.type = true)
+    (htok : tokenEofOk env.cfg w.buf = .ok (some first, b1))
+    (hy0 : Yields env.cfg b1 trest b0)
+    (hhead : ∀ p ∈ pre.head?, declStart p.1 = true ∧ p.2 ≠ "auto")
+    (hy : Yields env.cfg b0 ops bmid)
+    (hpre : PrefixSpec env (F + 1) (D + 1) (.type (.mk segs none false) cst vol) pre d1) (hfn : isFnType d1 = false) (hnr : isRefLike d1 = false) (hops : tvs ops = pre)
+    (htx : tokenEofOk env.cfg bmid = .ok (some x, bx)) (hx : x.type = "NAME") (hxv : identVal x.value = true)
+    (hto : tokenEofOk env.cfg bx = .ok (some ob, bo)) (hob : ob.type = "[")
+    (hn : Nested (content.map (·.type))) (hcb : cb.type = "]") (hyc : Yields env.cfg bo (content ++ [cb]) bc)
+    (hsemi : tokenEofOk env.cfg bc = .ok (some semi, b')) (hs : semi.type = ";")
+    (hF : content.length + 1 ≤ F) :
+    ∃ (d : Option String) (bD : Buf) (w7 : World) (ct : CTok) (dox : Option String) (ev : Event),
+      getDoxygen env.cfg env.mcRe w.buf = .ok (d, bD) ∧
+      interp env (mainBody (F + 1) (core (F + 1) (D + 1 + 1)) none) w = (w7, .ok (.inl none)) ∧
+      SigEq b' w7.buf ∧ ct.value = first.value ∧ w7.stack = { blk with loc := .tok ct.sidx } :: rest ∧
+      w7.events = w.events ++ [ev] ∧ ev.kind = .item (.variable (plainVariable x (DType.array d1 (if content.isEmpty then none else some (valueOf content))) dox)) ∧
+      ev.stateId = blk.id ∧ ev.parentId = rest.head?.map (·.id) ∧ (∀ dd, d = some dd → dox = some dd) ∧
+      w7.delivered = w.delivered + 1 ∧ w7.anon = w.anon ∧ w7.muted = false ∧ w7.nextId = w.nextId :=
+  toplevel_variable_array_pre env hp F D w toks first trest segs cst vol pre ops x ob content cb semi d1 b1 b0 bmid bx bo bc b' blk rest hstack hk hmu hfa hspec htoks hfirst htok hy0 hhead hy hpre hfn hnr hops htx hx hxv hto hob hn hcb hyc hsemi hs hF
+
 /-! non-vacuity: `const unsigned long volatile * const p ;` is a `SpecDeclToks` that satisfies `OK`, and the
     corresponding `Item.variableGen` reads exactly those tokens from a stream that holds them -/
 section nonvacuity
@@ -416,6 +444,22 @@ example (env : Env) (F D : Nat) (hF : 5 ≤ F) : cvParam.OK env F D where
   notFn := rfl
   nameTy := rfl
   notVoid := rfl
+
+/-- `unsigned long * x [ N + 1 ] ;` satisfies the side conditions of `Item.arrayVar` -/
+private def arrDecl : ArrDeclToks :=
+  { d := { spec := [tk "unsigned" "unsigned", tk "long" "long"], segs := [.fund "unsigned long"], cst := false, vol := false,
+           ops := [tk "*" "*"], x := tk "NAME" "x", semi := tk ";" ";",
+           d1 := .ptr (.type (.mk [.fund "unsigned long"] none false) false false) false false },
+    ob := tk "[" "[", content := [tk "NAME" "N", tk "+" "+", tk "INT_CONST_DEC" "1"], cb := tk "]" "]" }
+
+example (env : Env) (F D : Nat) (hF : 5 ≤ F) : arrDecl.OK env F D := by
+  refine ⟨?_, ⟨_, _, rfl, by decide⟩, by decide, ?_, rfl, rfl, rfl, by decide, rfl, ?_, rfl, rfl, by show 3 + 1 ≤ F; omega⟩
+  · have h := typeSpecR_cv env (F + 1) D [] [tk "unsigned" "unsigned", tk "long" "long"] [] [.fund "unsigned long"]
+      (nameSpecR_fund env (F + 1) D (tk "unsigned" "unsigned") [tk "long" "long"] rfl (by decide) (by decide) (by show 1 + 1 ≤ F + 1; omega))
+      (by decide) (by decide) (by show 0 + 0 + 3 ≤ F + 1; omega)
+    exact h
+  · exact prefixSpec_ptr env (F + 1) (D + 1) _ _ [("*", "*")] rfl (by show 1 + 1 ≤ F + 1; omega)
+  · exact .atom _ _ (by decide) (by decide) (.atom _ _ (by decide) (by decide) (.atom _ _ (by decide) (by decide) .nil))
 end nonvacuity
 
 end
